@@ -76,6 +76,8 @@ func (m *c13) memHeld() (int, bool) {
 	return total, true
 }
 
+var debugGiant = os.Getenv("VERIF_C13_GIANT") != ""
+
 // liveHeap returns the live heap after a forced collection.
 func liveHeap() uint64 {
 	runtime.GC()
@@ -395,6 +397,18 @@ func RunC13(ctx *core.Ctx) *core.Violation {
 		n = t.Pick(16384, 20000, 65536, 70000) + t.Draw(3) - 1
 		ctx.Count("probe_huge_input")
 	}
+	// a stream of hundreds of KiB made of short tokens with a very long one now and then (a
+	// source file with an embedded blob): the buffer grows under the long token, and the
+	// stream is long enough for several refills of the grown buffer afterwards
+	giant := huge && t.Chance(1, 3)
+	if debugGiant {
+		huge, giant = true, true // development aid (VERIF_C13_GIANT=1): only the rare giant-stream shape
+	}
+	if giant {
+		n = t.Pick(150000, 300000) + t.Draw(3) - 1
+		size = t.Pick(4096, 32768, 32768, size)
+		ctx.Count("probe_giant_mixed_stream")
+	}
 	alphabet := t.Draw(3)
 	data := genData(t, n, alphabet)
 	plan := faultio.DrawPlan(t, n, t.Chance(1, 2))
@@ -405,9 +419,20 @@ func RunC13(ctx *core.Ctx) *core.Violation {
 	maxTok := t.Pick(1, 3, 8, 20, 70, 400)
 	if huge || t.Chance(1, 60) {
 		maxTok = t.Pick(2048, 2049, 4095, 4096, 4097, 5000, 9000) // tokens around and beyond the growth edge of the default buffer
+		if giant || huge && n > 60000 && t.Chance(1, 2) {
+			maxTok = t.Pick(17000, 33000, 40000) // one token of tens of KiB among short ones: the buffer grows several times under it
+			ctx.Count("probe_very_long_tokens")
+		}
 	}
 	stopN := t.Pick(8, 32, 128)
-	drain := t.Chance(1, 2)
+	drain := giant || t.Chance(1, 2)
+	if giant && t.Chance(1, 2) {
+		// the shape itself: tokens released a few tokens late, and nothing but the token walk
+		discipline, stopN = 3, 1
+		if t.Chance(1, 2) {
+			plan.Chunk = faultio.ChunkFull // a source that always fills the buffer it is given (a file)
+		}
+	}
 	// swarm: op mask
 	var w [nOps13]int
 	base := [nOps13]int{opPeek: 6, opMoveF: 6, opMoveB: 1, opShift: 4, opLexeme: 2, opSkip: 1, opRewind: 1, opPos: 1, opErr: 2, opShiftLen: 2, opFree: 2, opPeekRune: 2, opShiftExt: 1, opScan: 5}
@@ -614,6 +639,24 @@ func RunC13(ctx *core.Ctx) *core.Violation {
 				break
 			}
 			k := 1 + sub.Draw(maxTok)
+			if giant {
+				if sub.Draw(40) != 0 {
+					k = 1 + sub.Draw(64)
+				} else {
+					k = maxTok/2 + sub.Draw(maxTok/2+1) // the blob
+				}
+			}
+			if giant {
+				// token-wise (a lexer that knows the token length): look at its last byte, move over it
+				k = min(k, len(m.vis)-m.pos)
+				if v := m.doPeek(k - 1); v != nil {
+					return v
+				}
+				if v := m.doMove(k); v != nil {
+					return v
+				}
+				k = 0
+			}
 			for j := 0; j < k && m.pos < len(m.vis); j++ {
 				if v := m.doPeek(0); v != nil {
 					return v
